@@ -166,6 +166,11 @@ func collect(t reflect.Type, discarded reflect.Type) ([]Field, error) {
 	return out, nil
 }
 
+// Collect is collect for any struct type (no discarded placeholder): the fields the codec sees, in
+// declaration order. Index returns the reflect index path of such a field (FieldByIndex).
+func Collect(t reflect.Type) ([]Field, error) { return collect(t, nil) }
+func (f Field) Index() []int                  { return f.idx }
+
 func nested(t reflect.Type) bool {
 	for {
 		switch t.Kind() {
@@ -460,8 +465,8 @@ func Render(tb *Table) string {
 // Obligation renders the small file whose compilation is the regenerated proof obligation.
 func Obligation(tb *Table, genModule string) string {
 	var sb strings.Builder
-	sb.WriteString("From Coq Require Import List Bool.\nFrom V Require Import C07.Model.\n")
-	fmt.Fprintf(&sb, "Require Import %s.\nImport ListNotations.\n", genModule)
+	sb.WriteString("From Coq Require Import List Bool String.\nFrom V Require Import C07.Model.\n")
+	fmt.Fprintf(&sb, "Require Import %s.\nImport ListNotations.\nOpen Scope string_scope.\nOpen Scope list_scope.\n", genModule)
 	for _, e := range tb.Projections {
 		fmt.Fprintf(&sb, "Example ok_%s : check_entry P_%s = true. Proof. vm_compute. reflexivity. Qed.\n", coqIdent(e.Name), coqIdent(e.Name))
 	}
@@ -471,6 +476,11 @@ func Obligation(tb *Table, genModule string) string {
 	sb.WriteString("Theorem layouts_ok : forallb check_entry projections = true. Proof. vm_compute. reflexivity. Qed.\n")
 	sb.WriteString("Theorem skeletons_ok : forallb check_skeleton skeletons = true. Proof. vm_compute. reflexivity. Qed.\n")
 	sb.WriteString("Theorem fulls_ok : forallb (fun nl => nodup_keys (snd nl) && forallb f_wanted (snd nl)) fulls = true. Proof. vm_compute. reflexivity. Qed.\n")
+	// the value shapes the CBOR round-trip theorems are instantiated for (Shapes.v) are the shapes of the table
+	for _, n := range tb.FullOrder {
+		fmt.Fprintf(&sb, "Example cbor_shape_%s : shapes_match_layouts [(%s, L_%s)] = true. Proof. vm_compute. reflexivity. Qed.\n", coqIdent(n), coqString(n), coqIdent(n))
+	}
+	sb.WriteString("Theorem cbor_shapes_match_layouts : shapes_match_layouts fulls = true. Proof. vm_compute. reflexivity. Qed.\n")
 	return sb.String()
 }
 
